@@ -85,6 +85,15 @@ def gen(tier, rng):
         if len(s["offsets_ref_frame"]) > 7:
             s["offsets_ref_frame"] = s["offsets_ref_frame"][:2]
         cases.append("sps raw:" + hx(bitgen.aliased(rng, lambda: g.enc_sps(s, rng).bytes())))
+    # syntax-steering elements set to a value congruent to a valid one modulo 2^8 / 2^16, encoded consistently with what
+    # the standard says for the value actually sent (an Invalid chroma format has 8 scaling lists and no plane flag)
+    for i in range(200 if tier == "quick" else 4000):
+        s = g.gen_sps(rng, small=True, force={"profile_idc": rng.choice(g.CHROMA_PROFILES)})
+        s["chroma_format_idc"] = rng.choice([0, 1, 2, 3, 3, 3]) + rng.choice([256, 512, 65536, 1 << 24])
+        s["scaling_matrix"] = rng.random() < 0.7
+        if len(s["offsets_ref_frame"]) > 7:
+            s["offsets_ref_frame"] = s["offsets_ref_frame"][:2]
+        cases.append("sps raw:" + hx(g.enc_sps(s, rng).bytes()))
     # random bytes
     for _ in range(500 if tier == "quick" else 10000):
         cases.append("sps raw:" + hx(bytes(rng.randrange(256) for _ in range(rng.randrange(0, 40)))))
